@@ -102,6 +102,8 @@ def preFixEmptyNode (n : Node) : Node :=
 
 def wTuple : Node := ⟨[0], [⟨true, some [0], [[2, 2]]⟩], [(0, .tuple [2, 2])], []⟩
 def wConst : Node := ⟨[0], [⟨true, some [0], [[1, 1]]⟩], [(0, .const 1)], []⟩
+def wUnaligned : Node :=
+  ⟨[0], [⟨true, some [0], [[2, 2, 3]]⟩, ⟨true, some [0], [[3, 3, 1]]⟩], [(0, .const 1)], []⟩
 def wZero : Node := ⟨[0], [⟨true, some [0], [[1, 2, 0, 3]]⟩], [(0, .tuple [1, 1, 1, 1])], []⟩
 
 end Dask.Lemmas.Coarse
